@@ -200,7 +200,7 @@ class ReviewedMatcher:
             rk = (fn_, kd)
             if kd != kind or rk not in self.reviewed:
                 continue
-            if sig in sigs and self.used.get(rk, 0) < self.reviewed[rk][0]:
+            if sig in sigs and self.used.get(rk, 0) < self.reviewed[rk][0] and (cond is None or cond(body, bb)):
                 self.used[rk] = self.used.get(rk, 0) + 1
                 return 'reviewed (site recognised by what it operates on; reviewed under the name %s): %s' % (fn_, self.reviewed[rk][1])
         return None
